@@ -1,7 +1,8 @@
 (* C11 end to end: consumers from the public API on a real connection; consumer A is dropped
    (Drop cancels it), or cancelled, read to its terminal message and dropped, or cancelled
    twice and dropped; or dropped while the server answers its Cancel by closing the connection
-   (mode 3) or the channel (mode 4) - in half of the scenarios while the I/O thread is slow
+   (mode 3) or the channel (mode 4), or dropped while its thread unwinds from a caught panic
+   (mode 5) - in half of the scenarios while the I/O thread is slow
    between notifying consumers and releasing the caller (scheduling point 2).  The bystanders
    B (same channel) and C (another channel) end with exactly one terminal message naming the
    true cause.
